@@ -56,6 +56,11 @@ def lexer_triage(repo):
     keys = {k for k in triage.TABLE if k.startswith("T3|lex")}
     if not tables.tb3(repo):
         keys.add(tables.TB3_TRIAGE_KEY)
+    # the final raise of aggregation_cls() is infeasible iff TB1 holds for every grammar class: prune the path
+    if not any(tables.tb1(repo, c) for c in tables.grammar_classes(repo)):
+        for cname in repo.subclasses("PVLParser"):
+            if "aggregation_cls" in repo.classes[cname].methods:
+                keys.add(f"T1|{cname}.aggregation_cls|raise ValueError")
     return tuple(sorted(keys))
 
 
